@@ -321,6 +321,22 @@ func (m *ldbManager) getRollback(height uint64) Patch {
 	return patch
 }
 
+// frontierBatcher replays a patch of the frontier key space into a
+// leveldb.Batch, with exactly the key and value encoding that
+// NewLevelDBWrapper(ldb).Subset(frontierByte) applies: the key gets the
+// frontierByte prefix, a stored value gets the existsByte prefix and a
+// deleted key is stored with an empty value.
+type frontierBatcher struct {
+	batch *leveldb.Batch
+}
+
+func (fb *frontierBatcher) Put(key []byte, value []byte) {
+	fb.batch.Put(common.JoinBytes(frontierByte, key), common.JoinBytes(existsByte, value))
+}
+func (fb *frontierBatcher) Delete(key []byte) {
+	fb.batch.Put(common.JoinBytes(frontierByte, key), []byte{})
+}
+
 func (m *ldbManager) Add(transaction Transaction) error {
 	commits := transaction.GetCommits()
 
@@ -361,13 +377,16 @@ func (m *ldbManager) Add(transaction Transaction) error {
 	frontierIdentifier := GetFrontierIdentifier(db)
 
 	if previous == frontierIdentifier {
-		if err := m.ldb.Put(common.JoinBytes(patchByte, common.Uint64ToBytes(identifier.Height)), patch.Dump(), nil); err != nil {
+		// one atomic write: the redo and undo entries and every key of the patch
+		// reach the journal as a single record, so a crash leaves either all or
+		// none of them
+		batch := new(leveldb.Batch)
+		batch.Put(common.JoinBytes(patchByte, common.Uint64ToBytes(identifier.Height)), patch.Dump())
+		batch.Put(common.JoinBytes(rollbackByte, common.Uint64ToBytes(identifier.Height)), rollbackPatch.Dump())
+		if err := patch.Replay(&frontierBatcher{batch: batch}); err != nil {
 			return err
 		}
-		if err := m.ldb.Put(common.JoinBytes(rollbackByte, common.Uint64ToBytes(identifier.Height)), rollbackPatch.Dump(), nil); err != nil {
-			return err
-		}
-		if err := ApplyPatch(NewLevelDBWrapper(m.ldb).Subset(frontierByte), patch); err != nil {
+		if err := m.ldb.Write(batch, nil); err != nil {
 			return err
 		}
 	}
@@ -383,17 +402,15 @@ func (m *ldbManager) Pop() error {
 	m.l2Cache.Purge()
 	m.changes.Unlock()
 
-	if err := ApplyPatch(NewLevelDBWrapper(m.ldb).Subset(frontierByte), rollbackPatch); err != nil {
+	// one atomic write: the undo patch and the removal of the redo and undo
+	// entries of the popped height
+	batch := new(leveldb.Batch)
+	if err := rollbackPatch.Replay(&frontierBatcher{batch: batch}); err != nil {
 		return err
 	}
-	if err := m.ldb.Delete(common.JoinBytes(patchByte, common.Uint64ToBytes(frontierIdentifier.Height)), nil); err != nil {
-		return err
-	}
-	if err := m.ldb.Delete(common.JoinBytes(rollbackByte, common.Uint64ToBytes(frontierIdentifier.Height)), nil); err != nil {
-		return err
-	}
-
-	return nil
+	batch.Delete(common.JoinBytes(patchByte, common.Uint64ToBytes(frontierIdentifier.Height)))
+	batch.Delete(common.JoinBytes(rollbackByte, common.Uint64ToBytes(frontierIdentifier.Height)))
+	return m.ldb.Write(batch, nil)
 }
 func (m *ldbManager) Stop() error {
 	m.changes.Lock()
